@@ -32,6 +32,19 @@ theorem errdyn (hat : V →ₗ[ℝ] Matrix n n ℝ) (hskew : ∀ v, (hat v)ᵀ =
   rw [h]
   noncomm_ring
 
+/-- the same in left-invariant form: with `E = R Rhᵀ`, `Rᵀ R = 1` and the equivariance `R hat(v) Rᵀ = hat(R v)` (C04's `conj`
+obligation for SO(3), where `Ad_R = R`), `E' = - hat(R (b - bh)) E`: the error attitude obeys the attitude kinematics driven
+by the bias error rotated to the navigation frame, whose linearisation at `E = exp(hat xi)`, `xi` small, is `xi' = - R beta`. -/
+theorem errdyn_left (hat : V →ₗ[ℝ] Matrix n n ℝ) (act : Matrix n n ℝ → V → V) (hskew : ∀ v, (hat v)ᵀ = -hat v)
+    (R Rh : Matrix n n ℝ) (horth : Rᵀ * R = 1) (hequiv : ∀ v, R * hat v * Rᵀ = hat (act R v)) (w b bh : V) :
+    R * hat (w - b) * Rhᵀ + R * (Rh * hat (w - bh))ᵀ = -(hat (act R (b - bh)) * (R * Rhᵀ)) := by
+  rw [errdyn hat hskew R Rh w b bh, ← hequiv (b - bh)]
+  have h : R * hat (b - bh) * Rᵀ * (R * Rhᵀ) = R * hat (b - bh) * (Rᵀ * R) * Rhᵀ := by
+    simp only [Matrix.mul_assoc]
+  rw [h, horth, Matrix.mul_one]
+
 end Cyecca
+
+#print axioms Cyecca.errdyn_left
 
 #print axioms Cyecca.errdyn
